@@ -558,6 +558,10 @@ class Engine:
         if any(k is None for k in kwnames):
             return self.models.star_call(self, e, st)
         f = e.func
+        if isinstance(f, ast.Name) and f.id in ('bytes', 'bytearray', 'sum', 'all', 'any', 'tuple', 'list', 'ListContainer', 'min', 'max') \
+                and len(e.args) == 1 and not e.keywords and isinstance(e.args[0], ast.ListComp):
+            # f([x for ...]) consumes the list at once: the same as f(x for ...) (same elements, same order, same exceptions)
+            e = ast.copy_location(ast.Call(func=f, args=[ast.copy_location(ast.GeneratorExp(elt=e.args[0].elt, generators=e.args[0].generators), e.args[0])], keywords=[]), e)
         # method call: evaluate receiver first
         exprs = ([f.value] if isinstance(f, ast.Attribute) else [f]) + list(e.args) + [k.value for k in e.keywords]
 
